@@ -1260,7 +1260,19 @@ func checkWriteToEndsAtEOF(c *Ctx, rule string) {
 	}
 	n := 0
 	bad := ""
-	for _, rl := range returnLeavesDeep(fn, 1) {
+	// results handed through a second variable kept in memory (the body inlined into a locking wrapper) are looked
+	// through only when the direct reading finds no nil result at all
+	leaves := returnLeaves(fn, 1)
+	hasNil := false
+	for _, rl := range leaves {
+		if isNilConst(rl.v) {
+			hasNil = true
+		}
+	}
+	if !hasNil {
+		leaves = returnLeavesDeep(fn, 1)
+	}
+	for _, rl := range leaves {
 		if !isNilConst(rl.v) {
 			continue
 		}
